@@ -161,6 +161,76 @@ def json_pass(v):
     return v
 
 
+def _lower(v):
+    return v.lower().strip() if isinstance(v, str) else v
+
+
+def _lower_keys(v):
+    if isinstance(v, dict):
+        return {_lower(k): _lower_keys(x) for k, x in v.items()}
+    return v
+
+
+def _lower_typed(v, ann):
+    """pydantic's str_to_lower acts on every value validated as `str`: follow the annotation down to the str-typed positions."""
+    import ast as _ast
+    if v is None or ann is None:
+        return v
+    if isinstance(ann, _ast.Name) and ann.id == "str":
+        return _lower(v)
+    if isinstance(ann, _ast.Constant) and isinstance(ann.value, str):
+        try:
+            return _lower_typed(v, _ast.parse(ann.value, mode="eval").body)
+        except SyntaxError:
+            return v
+    if isinstance(ann, _ast.BinOp) and isinstance(ann.op, _ast.BitOr):   # X | None
+        for side in (ann.left, ann.right):
+            if not (isinstance(side, _ast.Constant) and side.value is None):
+                return _lower_typed(v, side)
+        return v
+    if isinstance(ann, _ast.Subscript):
+        head = ann.value.attr if isinstance(ann.value, _ast.Attribute) else getattr(ann.value, "id", "")
+        args = list(ann.slice.elts) if isinstance(ann.slice, _ast.Tuple) else [ann.slice]
+        if head == "Optional":
+            return _lower_typed(v, args[0])
+        if head == "Union":
+            real = [a for a in args if not (isinstance(a, _ast.Constant) and a.value is None)]
+            return _lower_typed(v, real[0]) if len(real) == 1 else v
+        if head in ("list", "List", "Sequence", "tuple", "Tuple", "set", "Set") and isinstance(v, (list, tuple)):
+            return [_lower_typed(x, args[0]) for x in v]
+        if head in ("dict", "Dict", "Mapping") and isinstance(v, dict) and len(args) == 2:
+            return {_lower_typed(k, args[0]): _lower_typed(x, args[1]) for k, x in v.items()}
+    return v
+
+
+def _pydantic_normalise(chk, ci, fields: Dict[str, Any]) -> Dict[str, Any]:
+    """What opendsm.common.base_settings.BaseSettings does to the values a model is built from (read from that class: the before
+    validator lower-cases every string key of nested dicts, the `*` field validator lower-cases plain string values, and the config's
+    str_to_lower lower-cases every value validated as `str`); applies when `ci` derives from it."""
+    mro = chk.res.mro(ci)
+    base = [k for k in mro if k.name == "BaseSettings"]
+    if not base:
+        return fields
+    from engine.index import unparse
+    cfg = base[0].attrs.get("model_config")
+    to_lower = cfg is not None and cfg[1] is not None and "str_to_lower=True" in unparse(cfg[1]).replace(" ", "")
+    before = any(m.startswith("__lowercase_property_keys") or m == "lowercase_values" for m in base[0].methods) or \
+        any("lowercase" in m for m in base[0].methods)
+    out = {}
+    for k, v in fields.items():
+        if before:
+            v = _lower(_lower_keys(v))
+        if to_lower:
+            ann = None
+            for c in mro:
+                if k in c.attrs and c.attrs[k][0] is not None:
+                    ann = c.attrs[k][0]
+                    break
+            v = _lower_typed(v, ann)
+        out[_lower(k) if before else k] = v
+    return out
+
+
 class SettingsNS(Stub):
     """Stand-in for the hourly settings module: enums hand out member tokens, every other class builds a record."""
 
@@ -188,7 +258,7 @@ class SettingsNS(Stub):
         def ctor(*a, **kw):
             if a:
                 raise Unsupported(f"{name}(...) with positional arguments")
-            fields = dict(kw)
+            fields = _pydantic_normalise(self._chk, ci, dict(kw))
             if "scaling_method" in fields and isinstance(fields["scaling_method"], str):
                 sc = self.__getattr__("ScalingChoice")
                 for m in sc._fields().values():
@@ -212,7 +282,7 @@ class ModelObj(AbsObj):
 SCENARIOS = [
     # (fitted feature order, settings.train_features): the fitted order is the canonical sorted one plus supplemental columns,
     # the settings keep the user's order
-    (["temperature", "ghi", "supplemental_a"], ["ghi", "temperature"]),
+    (["temperature", "ghi", "Supplemental_A"], ["ghi", "temperature"]),
     (["temperature", "ghi", "occupancy_index"], ["occupancy_index", "ghi"]),
     (["temperature"], ["temperature"]),
 ]
@@ -299,6 +369,8 @@ def round_trip(chk, td, fd, scaling: str, ts_features: List[str], train_features
 
 
 def check(chk, rule, td, fd):
+    chk.trusted.append("pydantic: a subclass's model_config is merged with its parents'; str_to_lower lower-cases every value validated as `str` (list elements and dict keys included), "
+                       "untyped `list` elements are left alone; model_dump() returns the validated values; JSON object keys are strings")
     for scaling in ("STANDARDSCALER", "ROBUSTSCALER"):
         for ts, tr in SCENARIOS:
             for through_json in (True, False):
